@@ -610,11 +610,26 @@ fn vh_cmd(script: &str) -> String {
                 format!("h{:x}.{}", h, n as u8)
             },
             "eq" => match VecType::try_from(&limbs_of(a[1])) {
-                Some(o) => format!("b{}", (v == o) as u8),
+                Some(o) => {
+                    let e1 = v == o;
+                    let e2 = !(v != o);
+                    if e1 == e2 { format!("b{}", e1 as u8) } else { format!("b{}!ne={}", e1 as u8, !e2 as u8) }
+                },
                 None => "n".into(),
             },
             "cmp" => match VecType::try_from(&limbs_of(a[1])) {
-                Some(o) => format!("o{}", v.cmp(&o) as i8),
+                Some(o) => {
+                    // Ord, PartialOrd and the comparison operators must all tell the same story
+                    let c1 = v.cmp(&o) as i8;
+                    let c2 = v.partial_cmp(&o).map(|x| x as i8);
+                    let ops = ((v < o) as i8, (v <= o) as i8, (v > o) as i8, (v >= o) as i8);
+                    let want = ((c1 < 0) as i8, (c1 <= 0) as i8, (c1 > 0) as i8, (c1 >= 0) as i8);
+                    if c2 == Some(c1) && ops == want {
+                        format!("o{}", c1)
+                    } else {
+                        format!("o{}!partial_cmp={:?}!ops={:?}", c1, c2, ops)
+                    }
+                },
                 None => "n".into(),
             },
             _ => "?".into(),
